@@ -73,23 +73,49 @@ def coq_deps(target_v):
     return sorted(seen)
 
 
+def genconsts(pid, spec):
+    gbin = os.path.join(HARN, "bin", "genconsts")
+    with Lock("go"):
+        os.makedirs(os.path.join(HARN, "bin"), exist_ok=True)
+        mod = modfile("genconsts")
+        rc, out = sh(["go", "build", "-modfile", mod, "-o", gbin, "./tools/genconsts"], cwd=HARN, env=GOENV, timeout=900)
+    if rc != 0:
+        return rc, out
+    os.makedirs(os.path.join(COQ, "Gen"), exist_ok=True)
+    return sh([gbin, REPO, spec, os.path.join(COQ, "Gen", "%s_consts.v" % pid)], cwd=HARN, env=GOENV, timeout=300)
+
+
+def modfile(pid):
+    """harness go.mod/go.sum derived from REPO's, kept per property so that concurrent checks
+    (possibly against different VERIF_REPO trees) do not interfere"""
+    d = os.path.join(RUN, pid)
+    os.makedirs(d, exist_ok=True)
+    src = open(os.path.join(REPO, "go.mod")).read()
+    src = re.sub(r"^module .*$", "module verifharness", src, count=1, flags=re.M)
+    src += "\nrequire github.com/uber/kraken v0.0.0\nreplace github.com/uber/kraken => %s\n" % REPO
+    mp = os.path.join(d, "go.mod")
+    if not os.path.exists(mp) or open(mp).read() != src:
+        open(mp, "w").write(src)
+    shutil.copy(os.path.join(REPO, "go.sum"), os.path.join(d, "go.sum"))
+    return mp
+
+
 def build_coq(pid, log):
     """returns dict(proof_ok, run_ok, obligations, discharged, assumptions, broken, forbidden)"""
     res = dict(proof_ok=False, run_ok=False, obligations=0, discharged=0, assumptions={}, broken=[], forbidden=[])
     with Lock("coq"):
-        gen = os.path.join(HARN, "tools", "genconsts")
-        if os.path.isdir(gen):
-            rc, out = sh(["go", "run", "./tools/genconsts", REPO, os.path.join(COQ, "Gen", "Consts.v")], cwd=HARN, env=GOENV, timeout=600)
+        spec = os.path.join(VERIF, "props", pid + ".consts.json")
+        if os.path.exists(spec):
+            rc, out = genconsts(pid, spec)
             log.write("== genconsts rc=%d\n%s\n" % (rc, out))
             if rc != 0:
-                res["broken"].append("genconsts failed: " + out[-400:])
+                res["broken"].append("literal extraction (genconsts) failed: " + out[-400:])
         sh(["./mkproject.sh"], cwd=COQ)
-        rc, out = sh("timeout 3000 make -k -j16 2>&1", cwd=COQ, shell=True)
-        log.write("== make -k rc=%d\n%s\n" % (rc, out[-6000:]))
         prop_v = "Properties/%s.v" % pid
         run_v = "Run/%s_run.v" % pid
-        rc1, out1 = sh("timeout 3000 make Properties/%s.vo 2>&1" % pid, cwd=COQ, shell=True)
-        rc2, out2 = sh("timeout 3000 make Run/%s_run.vo 2>&1" % pid, cwd=COQ, shell=True)
+        rc2, out2 = sh("timeout 3000 make -j16 Run/%s_run.vo 2>&1" % pid, cwd=COQ, shell=True)
+        rc1, out1 = sh("timeout 3000 make -j16 Properties/%s.vo 2>&1" % pid, cwd=COQ, shell=True)
+        log.write("== make Run rc=%d\n%s\n== make Properties rc=%d\n%s\n" % (rc2, out2[-3000:], rc1, out1[-3000:]))
         res["proof_ok"] = rc1 == 0 and os.path.exists(os.path.join(COQ, prop_v + "o"))
         res["run_ok"] = rc2 == 0 and os.path.exists(os.path.join(COQ, run_v + "o"))
         if not res["proof_ok"]:
@@ -159,16 +185,20 @@ def build_coq(pid, log):
 def build_harness(cfg, pid, log):
     h = cfg["harness"]
     with Lock("go"):
-        sh(["./mkmod.sh"], cwd=HARN, env=GOENV)
         os.makedirs(os.path.join(HARN, "bin"), exist_ok=True)
         if h["kind"] == "bin":
             out_bin = os.path.join(HARN, "bin", h["pkg"])
-            rc, out = sh(["go", "build", "-tags", "verif", "-o", out_bin, "./" + h["pkg"]], cwd=HARN, env=GOENV, timeout=1800)
+            rc, out = sh(["go", "build", "-modfile", modfile(pid), "-tags", "verif", "-o", out_bin, "./" + h["pkg"]], cwd=HARN, env=GOENV, timeout=1800)
         else:  # overlay: in-package driver compiled into the package's test binary
             ov = {"Replace": {}}
             for dst, src in h["files"].items():
                 ov["Replace"][os.path.join(REPO, dst)] = os.path.join(VERIF, src)
             os.makedirs(os.path.join(RUN, pid), exist_ok=True)
+            # the shared driver library becomes a virtual package inside /repo's module
+            hl = open(os.path.join(HARN, "hlib", "hlib.go")).read().replace("package hlib", "package verifhlib", 1)
+            hlp = os.path.join(RUN, pid, "hlib_ov.go")
+            open(hlp, "w").write(hl)
+            ov["Replace"][os.path.join(REPO, "utils/verifhlib/hlib.go")] = hlp
             ovp = os.path.join(RUN, pid, "overlay.json")
             json.dump(ov, open(ovp, "w"))
             out_bin = os.path.join(HARN, "bin", "ov_" + pid)
@@ -251,10 +281,13 @@ def load_cases(path):
 
 
 def load_findings(pid):
-    p = os.path.join(VERIF, "known_findings.json")
-    if not os.path.exists(p):
-        return []
-    return [f for f in json.load(open(p))["findings"] if f["property"] == pid]
+    out, seen = [], set()
+    for p in (os.path.join(VERIF, "known_findings.json"), os.path.join(VERIF, "findings", pid + ".json")):
+        if os.path.exists(p):
+            for f in json.load(open(p)).get("findings", []):
+                if f.get("property") == pid and f.get("id") not in seen:
+                    seen.add(f.get("id")); out.append(f)
+    return out
 
 
 def match_finding(case, findings):
@@ -274,8 +307,37 @@ def match_finding(case, findings):
     return None
 
 
+def setup():
+    """offline setup after a fresh restore: generate Gen/*.v, build all of Coq, build every driver"""
+    os.makedirs(RUN, exist_ok=True)
+    log = open(os.path.join(RUN, "setup.log"), "w")
+    pids = sorted(os.path.basename(f)[:-5] for f in glob.glob(os.path.join(VERIF, "props", "C*.json")) if not f.endswith(".consts.json"))
+    for pid in pids:
+        spec = os.path.join(VERIF, "props", pid + ".consts.json")
+        if os.path.exists(spec):
+            rc, out = genconsts(pid, spec)
+            print("genconsts %s rc=%d %s" % (pid, rc, out[-300:] if rc else ""))
+    sh(["./mkproject.sh"], cwd=COQ)
+    rc, out = sh("timeout 10000 make -k -j16 2>&1", cwd=COQ, shell=True)
+    log.write(out)
+    print("coq build rc=%d" % rc)
+    if rc != 0:
+        print(out[-3000:])
+    sh(["go", "build", "./..."], cwd=REPO, env=GOENV, timeout=3600)
+    bad = 0
+    for pid in pids:
+        cfg = json.load(open(os.path.join(VERIF, "props", pid + ".json")))
+        ok, _, out = build_harness(cfg, pid, log)
+        print("driver %s %s" % (pid, "ok" if ok else "FAILED: " + out[-500:]))
+        bad += 0 if ok else 1
+    print("setup done")
+    sys.exit(0)
+
+
 def main():
     args = sys.argv[1:]
+    if args and args[0] == "--setup":
+        setup()
     pid = args[0]
     tier = os.environ.get("VERIF_TIER", "quick")
     replay = None
